@@ -211,8 +211,13 @@ def ceiling_at_most_each_bound(ctx):
             else:
                 g_ = flg.guards(node) if f.pos_of(node) is not None else []
                 only = [b for b in has if re.fullmatch(r"\(?(%s)\)?" % BOUNDS[b], tt)]
+                # `if (x > E) x = E;` / `if (E < x) x = E;`: the conditional spelling of x = std::min(x, E) - earlier caps stay in force
+                lower = any(isinstance(k, str) and p is True and k in ("(%s > %s)" % (var, tt), "(%s < %s)" % (tt, var)) for k, p in g_) or \
+                    any(isinstance(k, str) and p is False and k in ("(%s <= %s)" % (var, tt), "(%s >= %s)" % (tt, var)) for k, p in g_)
                 cond_max = only and any(isinstance(k, str) and p is True and re.match(r"^\((%s > .*|.* < %s)\)$" % (V, V), k) for k, p in g_)
-                if cond_max:
+                if lower:
+                    evs = [("set", "capped:" + b) for b in has]
+                elif cond_max:
                     evs = [("set", "capped:" + only[0])]         # `if (x > B) x = B;`
                 else:
                     evs = [("clear", "capped:" + b) for b in BOUNDS if b not in has] + [("set", "capped:" + b) for b in has if "+" in tt and b == "usage + limit_max_bytes"]
